@@ -19,6 +19,10 @@
      C17-counters.diff    : _mark_finished counts a falsy error ("" ) as success.
    (both are in /repo since 558c82c / f2b0ce6.)
 
+   waitjobs is modelled as of b6f8314 ("waitjobs deletes a re-added job, or raises KeyError, when a
+   dropped id was re-used or has several waiters"): a dropped job's id2job entry is deleted only while
+   it still refers to the waited-for object.
+
    Outside the properties' alphabets but modelled (needed to reach "the newest job is gone at save
    time", C18): Drop = dropjobs (+ the deletion in waitjobs), Watchdog = dropdead, Advance = the
    clock moving without the handletimeouts sweep. *)
@@ -414,11 +418,9 @@ Fixpoint release (ser : N) (js : list job) (cs : list conn) : list conn * list o
     end
   end.
 
-Definition drop_outs (present : bool) (o : list out) : list out :=
-  match o with
-  | [] => []
-  | x :: r => (if present then x else OKeyErr) :: map (fun _ => OKeyErr) r
-  end.
+(* `self.id2job.get(jobid) is j` *)
+Definition id_is (ids : list (jid * N)) (i : jid) (ser : N) : bool :=
+  match id_lookup ids i with Some w => w =? ser | None => false end.
 
 Definition run_event (e : event) (s : state) : state * list out :=
   match e with
@@ -443,15 +445,16 @@ Definition run_event (e : event) (s : state) : state * list out :=
       die c s2
     end
   | EvDone ser =>
-    (* waitjobs, jobs.py:228-231: each released client runs `if j.drop: del self.id2job[j.jobid]`; the
-       first one deletes whatever is registered under that id NOW, the following ones (or all, when the
-       id is already gone) fail with KeyError = an error response instead of the job *)
+    (* waitjobs, jobs.py:227-233: every client released by the event runs
+         if j.drop and self.id2job.get(j.jobid) is j: del self.id2job[j.jobid]
+       (b6f8314).  The first one deletes the entry iff it still refers to THIS object; for the following
+       ones (and for all of them when the id was re-added after a kill, or already forgotten by the
+       watchdog) the test is false.  Every released client gets the job record. *)
     let (cs, o) := release ser (s_jobs s) (s_conns s) in
     match getjob (s_jobs s) ser with
     | Some j =>
-      if j_drop j && has_waiter ser (s_conns s) then
-        (set_ids (id_del (s_ids s) (j_id j)) (set_conns cs s),
-         drop_outs (match id_lookup (s_ids s) (j_id j) with Some _ => true | None => false end) o)
+      if j_drop j && has_waiter ser (s_conns s) && id_is (s_ids s) (j_id j) ser then
+        (set_ids (id_del (s_ids s) (j_id j)) (set_conns cs s), o)
       else (set_conns cs s, o)
     | None => (set_conns cs s, o)
     end
@@ -581,7 +584,8 @@ Definition step (s : state) (o : op) : state * list out :=
         | None => (s, [OKeyErr])
         | Some j =>
           if j_done j && negb (done_pending ser (s_hub s)) then
-            ((if j_drop j then set_ids (id_del (s_ids s) i) s else s), [OReleased c j])      (* jobs.py:229-230 *)
+            ((if j_drop j && id_is (s_ids s) (j_id j) ser then set_ids (id_del (s_ids s) (j_id j)) s else s),
+             [OReleased c j])                                                                 (* jobs.py:229-232 *)
           else
             let cn := get_conn (s_conns s) c in
             (set_conns (put_conn (s_conns s) (mkConn c (BWait ser) (c_run cn))) s, [OBlocked])
